@@ -449,6 +449,7 @@ def _c01():
         L.append(leg("rt-%s-asleep" % k, "c01_rt", (2, 3), {"kind": k, "asleep": 1}, flags=("-fp", "-hb"), what="same with the worker asleep when the window opens"))
     for ta in (1, 2, 3):
         L.append(leg("rt-copythrow-%d" % ta, "c01_rt", (2, 3), {"kind": "copythrow", "throwat": ta}, flags=("-fp", "-hb"), what="the copy of the functor into its task throws inside the %d. task_group::run; the group keeps being used: waits still cover every accepted unit" % ta))
+    L.append(sweep("rt-reuse_after_throw", "c01_rt", (1, 2), [{"mode": m} for m in (0, 1, 2, 3)], {"kind": "reuse_after_throw"}, flags=("-fp", "-hb"), what="a task_group whose wait / run_and_wait(f) / run_and_wait(task_handle) left by an exception (thrown by f, by a run() task, by the handle's task) is used again: the three units submitted afterwards run exactly once and the next wait covers them (work is skipped only if its group was cancelled)", tiers=("quick", "thorough")))
     L.append(leg("rt-abandon", "c01_rt", (2, 3), {"kind": "abandon", "children": 3}, flags=("-fp", "-hb"), what="one worker, two arenas: the worker spawns three tasks in the normal-priority arena and is recalled for a high-priority arena before it gets to them (it leaves with a non-empty pool); the main thread then enters the arena in another slot and waits for the group: the abandoned tasks must be found"))
     L.append(leg("rt-copythrow-defer", "c01_rt", (2, 3), {"kind": "copythrow", "throwat": 2, "defer": 1}, flags=("-fp", "-hb"), what="same, the failing call is task_group::defer"))
     for k in ("tg", "nested", "run_and_wait", "pfor", "pfor_auto", "pfor_aff", "isolate", "cancel", "enqueue"):
@@ -521,6 +522,7 @@ PROPS["C04"] = {
         leg("fresh_cancel", "c04_ctx", (3, 4), {"kind": "fresh_cancel"}, what="two cancellers of a context that was never bound: exactly one winner"),
         leg("reset_below", "c04_ctx", (2, 3), {"kind": "reset_below"}, what="a descendant is reset while its ancestors stay cancelled; then an unrelated tree is cancelled || a new context is bound beneath the cancelled parent: the reset context must not be marked again"),
         leg("mid", "c04_ctx", (3, 4), {"kind": "mid"}, what="cancel(P) || bind C beneath P || bind D beneath R (D, R stay clean)"),
+        leg("mid_reset", "c04_ctx", (3, 4), {"kind": "mid_reset"}, what="same after P.reset(): P was used and reset in an earlier round and keeps its bound children; cancel(P) must still reach them"),
         leg("destroy", "c04_ctx", (3, 4), {"kind": "destroy"}, what="cancel(R) || bind C beneath P || destroy sibling X"),
         leg("deep", "c04_ctx", (3, 4), {"kind": "deep"}, what="cancel(R) || bind C beneath P || bind E beneath C"),
         leg("grand-tso", "c04_ctx@tso", (2, 3), {"kind": "grand"}, flags=("-fp", "-tso"), what="cancel(R) || bind C beneath P under x86-TSO store buffers (epoch / may_have_children / state publication order)"),
